@@ -260,6 +260,11 @@ def binop(rt, interp, op, a, b, node=None):
         hook = rt.hooks.get("bytes*int")
         if hook is not None:
             return hook(interp, a, b)
+    hook = rt.hooks.get("binop:" + type(a).__name__)          # a unit's own value classes (e.g. a repeated byte string)
+    if hook is not None:
+        res = hook(interp, opn, a, b)
+        if res is not NotImplemented:
+            return res
     raise Undecided("operator %s on %r and %r" % (opn, a, b))
 
 
@@ -642,6 +647,11 @@ def _zip(interp, args, kwargs):
 def _enumerate(interp, args, kwargs):
     start = args[1] if len(args) > 1 else kwargs.get("start", 0)
     return GenResult([(i + start, x) for i, x in enumerate(interp.iterate(args[0]))])
+
+
+def _divmod(interp, args, kwargs):
+    import ast as _ast
+    return (interp.binop(_ast.FloorDiv(), args[0], args[1]), interp.binop(_ast.Mod(), args[0], args[1]))
 
 
 def _map(interp, args, kwargs):
@@ -1111,7 +1121,7 @@ def install(rt):
     for name, fn in [("len", _len), ("isinstance", _isinstance), ("sorted", _sorted), ("any", _any), ("all", _all),
                      ("min", _minmax("min")), ("max", _minmax("max")), ("zip", _zip), ("enumerate", _enumerate),
                      ("range", _range), ("reversed", _reversed), ("iter", _iter), ("next", _next), ("hash", _hash),
-                     ("map", _map), ("filter", _filter),
+                     ("map", _map), ("filter", _filter), ("divmod", _divmod),
                      ("hasattr", _hasattr), ("getattr", _getattr), ("repr", _repr), ("type", _type), ("sum", _sum),
                      ("abs", _abs), ("print", lambda i, a, k: None), ("id", lambda i, a, k: i.ctx.fresh_int("id"))]:
         B[name] = Builtin(name, fn)
@@ -1137,7 +1147,11 @@ def install(rt):
     N["dataclasses"] = {"replace": Builtin("dataclasses.replace", _replace),
                         "dataclass": Builtin("dataclass", lambda i, a, k: a[0] if a else Builtin("dc", lambda i2, a2, k2: a2[0]))}
     N["collections"] = {"OrderedDict": Builtin("OrderedDict", _ordered_dict)}
-    N["functools"] = {"lru_cache": Builtin("lru_cache", lambda i, a, k: Builtin("lru", lambda i2, a2, k2: a2[0]))}
+    def _partial(i, a, k):
+        fn, pre, prek = a[0], list(a[1:]), dict(k)
+        return Builtin("partial(%r)" % (fn,), lambda i2, a2, k2: i2.call(fn, pre + list(a2), dict(prek, **k2)))
+    N["functools"] = {"lru_cache": Builtin("lru_cache", lambda i, a, k: Builtin("lru", lambda i2, a2, k2: a2[0])),
+                      "partial": Builtin("partial", _partial)}
     N["contextlib"] = {"contextmanager": Builtin("contextmanager", lambda i, a, k: a[0])}
     N["logging"] = {"getLogger": Builtin("getLogger", lambda i, a, k: Opaque("logger")), "DEBUG": 10}
     N["warnings"] = {"warn": Builtin("warn", lambda i, a, k: None)}
@@ -1172,7 +1186,7 @@ def install(rt):
     N["ipaddress"] = {"ip_address": Opaque("ip_address"), "IPv4Address": Opaque("IPv4Address"),
                       "IPv6Address": Opaque("IPv6Address")}
     N["hashlib"] = {"md5": Opaque("hashlib.md5"), "sha1": Opaque("hashlib.sha1")}
-    N["hmac"] = {"new": Opaque("hmac.new")}
+    N["hmac"] = {"new": Opaque("hmac.new"), "digest": Opaque("hmac.digest"), "compare_digest": Opaque("hmac.compare_digest")}
     N["time"] = {"time": Opaque("time.time")}
     def _getrandbits(i, a, k):
         n = a[0]
